@@ -35,6 +35,11 @@ func (e *Exec) specEnv(st, old *State) *specCtx {
 	for k, v := range e.params {
 		c.vars[k] = v
 	}
+	if st != nil {
+		for k, v := range e.ghostVars(st) {
+			c.vars[k] = v
+		}
+	}
 	c.where = e.fn.String()
 	return c
 }
@@ -46,7 +51,7 @@ func (eng *Engine) newExec(fn *ssa.Function, fc *FuncContract, props []string) *
 		mode = fc.Mode
 	}
 	e := &Exec{eng: eng, fn: fn, fc: fc, mode: mode, sc: newScript(mode), initMem: map[string]string{}, memSort: map[string]string{},
-		params: map[string]Val{}, oblNames: map[string]int{}, libUsed: map[string]bool{}, propsDef: props}
+		params: map[string]Val{}, oblNames: map[string]int{}, libUsed: map[string]bool{}, propsDef: props, ghostTypes: map[string]types.Type{}}
 	return e
 }
 
@@ -84,7 +89,20 @@ func (e *Exec) entryState(scen map[string]types.Type) *State {
 }
 
 // verifyFunc runs the executor over fn and collects obligations.
-func (eng *Engine) verifyFunc(fn *ssa.Function, fc *FuncContract, props []string, scen map[string]types.Type, scenName string) (res *FuncResult) {
+func (eng *Engine) verifyFunc(fn *ssa.Function, fc *FuncContract, props []string, sct scenarioT) (res *FuncResult) {
+	scen, scenName := sct.types, sct.name
+	if fc != nil && sct.name != "" && len(fc.VLoops[sct.name]) > 0 {
+		// variant-specific loop clauses override the general ones
+		cp := *fc
+		cp.Loops = map[int]*LoopContract{}
+		for k, v := range fc.Loops {
+			cp.Loops[k] = v
+		}
+		for k, v := range fc.VLoops[sct.name] {
+			cp.Loops[k] = v
+		}
+		fc = &cp
+	}
 	res = &FuncResult{Fn: fn, Contract: fc, Scenario: scenName}
 	e := eng.newExec(fn, fc, props)
 	res.Mode = e.mode
@@ -101,6 +119,7 @@ func (eng *Engine) verifyFunc(fn *ssa.Function, fc *FuncContract, props []string
 		e.oblNames = map[string]int{}
 	}
 	st := e.entryState(scen)
+	e.tmInitGhosts(st)
 	e.entry = st.clone()
 	entry := e.entry
 	// requires
@@ -111,6 +130,25 @@ func (eng *Engine) verifyFunc(fn *ssa.Function, fc *FuncContract, props []string
 			t, err := c.evalBool(cl.Expr)
 			if err != nil {
 				res.Err = err
+				return
+			}
+			e.sc.assert(t)
+		}
+		if sct.assume != "" {
+			c := e.specEnv(st, nil)
+			c.where = fn.String() + " variant " + sct.name
+			t, err := c.evalBool(sct.assume)
+			if err != nil {
+				res.Err = err
+				return
+			}
+			if sct.cover {
+				// the variants together cover the precondition
+				e.checkPost(st, "requires", "variants-cover", t, nil, fmt.Sprintf("%s:%d", fc.File, fc.Line))
+				res.Obls = e.obls
+				for _, o := range res.Obls {
+					o.Name = strings.Replace(o.Name, "#", "["+scenName+"]#", 1)
+				}
 				return
 			}
 			e.sc.assert(t)
@@ -168,6 +206,9 @@ func (eng *Engine) verifyFunc(fn *ssa.Function, fc *FuncContract, props []string
 			continue
 		}
 		for ci, cl := range fc.Ensures {
+			if cl.Variant != "" && cl.Variant != sct.name {
+				continue
+			}
 			c := e.specEnv(ex.st, entry)
 			c.where = fmt.Sprintf("%s:%d", cl.File, cl.Line)
 			c.resName = resNames
@@ -559,6 +600,16 @@ func (e *Exec) callByContract(st *State, c *FuncContract, callee *ssa.Function, 
 			e.note("CONTRACT-ERROR contract %s: %v", name, err)
 			continue
 		}
+		if cl.Variant != "" {
+			// proved only under the variant's condition (evaluated in the pre-state)
+			vx := mk(pre, nil)
+			vt, err := vx.evalBool(c.variantExpr(cl.Variant))
+			if err != nil {
+				e.note("CONTRACT-ERROR contract %s variant %s: %v", name, cl.Variant, err)
+				continue
+			}
+			t = imp(vt, t)
+		}
 		e.assume(st, t)
 	}
 	e.setResult(st, dst, res)
@@ -576,38 +627,59 @@ func (e *Exec) callByContract(st *State, c *FuncContract, callee *ssa.Function, 
 // loopVars resolves the source-level names usable in the invariants of loop l.
 func (e *Exec) loopVars(fn *ssa.Function, l *loopInfo, st *State) map[string]Val {
 	vars := map[string]Val{}
-	// any named value whose definition dominates the header
+	// any named value whose definition dominates the header; among several
+	// candidates for one name the most recent one (deepest in the dominator
+	// tree, latest in its block) wins
+	type cand struct {
+		v   Val
+		blk *ssa.BasicBlock
+		ord int
+	}
+	best := map[string]cand{}
+	ord := 0
 	for _, b := range fn.Blocks {
 		for _, ins := range b.Instrs {
-			if d, ok := ins.(*ssa.DebugRef); ok && !d.IsAddr {
-				if id, ok := d.Expr.(interface{ String() string }); ok {
-					_ = id
-				}
-				name := debugName(d)
-				if name == "" {
-					continue
-				}
-				v, ok := st.vals[d.X]
-				if !ok {
-					if _, isC := d.X.(*ssa.Const); isC {
-						v = e.val(st, d.X)
-						ok = true
-					}
-				}
-				if !ok {
-					continue
-				}
-				if db := valueBlock(d.X); db != nil && db != l.header && !db.Dominates(l.header) {
-					continue
-				}
-				if _, isPhi := d.X.(*ssa.Phi); isPhi && valueBlock(d.X) == l.header {
-					continue // handled below
-				}
-				if _, dup := vars[name]; !dup {
-					vars[name] = v
+			ord++
+			d, ok := ins.(*ssa.DebugRef)
+			if !ok || d.IsAddr {
+				continue
+			}
+			name := debugName(d)
+			if name == "" {
+				continue
+			}
+			v, ok := st.vals[d.X]
+			if !ok {
+				if _, isC := d.X.(*ssa.Const); isC {
+					v = e.val(st, d.X)
+					ok = true
 				}
 			}
+			if !ok {
+				continue
+			}
+			// the reference itself must be located before the loop (its block dominates the header)
+			if b != l.header && !b.Dominates(l.header) {
+				continue
+			}
+			if b == l.header {
+				continue
+			}
+			if db := valueBlock(d.X); db != nil && db != l.header && !db.Dominates(l.header) {
+				continue
+			}
+			if _, isPhi := d.X.(*ssa.Phi); isPhi && valueBlock(d.X) == l.header {
+				continue // handled below
+			}
+			c := cand{v: v, blk: b, ord: ord}
+			old, has := best[name]
+			if !has || (old.blk == c.blk && c.ord > old.ord) || (old.blk != c.blk && old.blk.Dominates(c.blk)) {
+				best[name] = c
+			}
 		}
+	}
+	for n, c := range best {
+		vars[n] = c.v
 	}
 	for _, ins := range fn.Blocks[0].Instrs {
 		if a, ok := ins.(*ssa.Alloc); ok && a.Comment != "" {
@@ -680,7 +752,8 @@ func (e *Exec) invCtx(fn *ssa.Function, l *loopInfo, st *State) *specCtx {
 	return c
 }
 
-// loopModified: memory keys possibly written inside the loop.
+// loopModified: memory keys possibly written inside the loop (at references
+// that may exist at the loop head; see havocForCall for fresh-only keys).
 func (e *Exec) loopModified(fn *ssa.Function, l *loopInfo) (map[string]string, bool) {
 	keys := map[string]string{}
 	all := false
@@ -688,7 +761,9 @@ func (e *Exec) loopModified(fn *ssa.Function, l *loopInfo) (map[string]string, b
 		for _, ins := range b.Instrs {
 			a := e.eng.instrWrites(ins, e.sc, fn)
 			for k, s := range a.keys {
-				keys[k] = s
+				if a.old[k] {
+					keys[k] = s
+				}
 			}
 			all = all || a.all
 		}
@@ -731,6 +806,14 @@ func (e *Exec) cutLoopHead(fn *ssa.Function, fc *FuncContract, l *loopInfo, st *
 	keys, all := e.loopModified(fn, l)
 	for k, srt := range keys {
 		e.memGet(st, k, srt)
+	}
+	if e.tm() != nil && e.loopHasAtomics(l) {
+		for name, t := range e.ghostTypes {
+			if strings.HasPrefix(name, "measure") {
+				continue
+			}
+			keys["ghost|"+name] = e.sc.sortOf(t)
+		}
 	}
 	e.havocKeysSorted(st, keys, all)
 	// 3. assume the invariant
